@@ -686,6 +686,67 @@ func stackPart(c *vlib.Cases, r *vlib.Rng, thorough bool) {
 	decoy.ln.Close()
 }
 
+// mixupCase: two endpoints with different base paths behind round-robin; first some backend answers that the relay cannot
+// pass on (a status line below 100), then many clients at once, each request numbered in its path and in its query.
+// Whatever endpoint a request is sent to, it is asked for THIS request's path under THAT endpoint's base path.
+func mixupCase(engine string, rounds, clients int) map[string]any {
+	a, b := stack.NewBackend("alpha"), stack.NewBackend("beta")
+	defer a.Close()
+	defer b.Close()
+	bases := map[string]string{"alpha": "/a/v1", "beta": "/b"}
+	s, err := stack.Start(stack.Opts{Vary: stack.VaryFor("c16.mixup", engine), Engine: engine, Balancer: "round-robin", EPs: []stack.EP{
+		{Name: "alpha", Type: "openai", Priority: 100, Backend: a, BasePath: bases["alpha"], Preserve: true},
+		{Name: "beta", Type: "openai", Priority: 100, Backend: b, BasePath: bases["beta"], Preserve: true}}})
+	if err != nil {
+		return map[string]any{"start_err": err.Error()}
+	}
+	defer s.Stop()
+	ok := stack.Behaviour{Kind: "ok", Status: 200, Headers: [][2]string{{"Content-Type", "application/json"}}, Body: []byte(`{"ok":true}`)}
+	send := func(id string) {
+		stack.Do(s.Addr, stack.Request("POST", "/olla/proxy/v1/x/"+id+"?n="+id, s.Addr, [][2]string{{"Content-Type", "application/json"}}, []byte(`{}`), false), 5*time.Second)
+	}
+	// answers the relay cannot pass on
+	for _, be := range []*stack.Backend{a, b} {
+		be.SetBehaviour(stack.Behaviour{Kind: "ok", Status: 99, Headers: [][2]string{{"Content-Type", "application/json"}}, Body: []byte(`{}`)})
+	}
+	for i := 0; i < 4; i++ {
+		send(fmt.Sprintf("odd%d", i))
+		s.SetStatus("alpha", domain.StatusHealthy)
+		s.SetStatus("beta", domain.StatusHealthy)
+	}
+	for _, be := range []*stack.Backend{a, b} {
+		be.SetBehaviour(ok)
+		be.Taken()
+	}
+	total, wrong, first := 0, 0, ""
+	for r := 0; r < rounds; r++ {
+		var wg sync.WaitGroup
+		for k := 0; k < clients; k++ {
+			wg.Add(1)
+			go func(k int) {
+				defer wg.Done()
+				send(fmt.Sprintf("r%dk%d", r, k))
+			}(k)
+		}
+		wg.Wait()
+		for _, be := range []*stack.Backend{a, b} {
+			for _, sn := range be.Taken() {
+				total++
+				id := strings.TrimPrefix(sn.RawQuery, "n=")
+				if want := bases[be.Name] + "/v1/x/" + id; sn.Path != want {
+					wrong++
+					if first == "" {
+						first = fmt.Sprintf("round %d: the %s backend (base %s) was asked for %s?%s; this request's path under this endpoint's base is %s", r, be.Name, bases[be.Name], sn.Path, sn.RawQuery, want)
+					}
+				}
+			}
+		}
+		s.SetStatus("alpha", domain.StatusHealthy)
+		s.SetStatus("beta", domain.StatusHealthy)
+	}
+	return map[string]any{"requests_seen": total, "wrong": wrong, "first": first, "rounds": rounds, "clients": clients}
+}
+
 func main() {
 	tier := vlib.Tier()
 	r := vlib.NewRng(vlib.Seed())
@@ -694,6 +755,10 @@ func main() {
 	purePart(c, r, thorough)
 	if os.Getenv("VERIF_C16_NOSTACK") == "" {
 		stackPart(c, r.Fork(), thorough)
+		for _, engine := range []string{"sherpa", "olla"} {
+			c.Emit(map[string]any{"kind": "mixup", "engine": engine, "impl": mixupCase(engine, map[bool]int{false: 120, true: 1200}[thorough], 32)})
+			c.Count("mixup." + engine)
+		}
 	}
 	c.Close(map[string]any{"exhaustive": false, "exhaustive_note": "path space is infinite; corner paths x 10 base paths x preserve on/off are enumerated, the rest is grammar-generated"})
 }
